@@ -374,9 +374,12 @@ def _judge_seq(va, vb, op, out, level, mosw, add, prop_order, prop_cons):
             return      # colliding carried ids may be skipped instead; only frame and warnings are judged
         if an.unresolved or an.dups:
             # C01 / C02 speak of messages whose references resolve; what happens to the remaining elements of a
-            # message with an unresolvable or duplicate element is C06's business
+            # message with an unresolvable element is C06's business
             add('C06.rest', '%s: with %s the remaining elements were not applied as they should: %r -> %r, expected %r' % (
                 t, 'an unresolvable element' if an.unresolved else 'a duplicate story', seqA, seqB, an.expected))
+            if not an.unresolved:
+                # every reference resolves; only carried duplicates are skipped: where the others land is C01's too
+                add(prop_order, '%s (with skipped duplicates): %r -> %r, expected %r' % (t, seqA, seqB, an.expected))
         else:
             ignored = _ignored(seqA, seqB, an, op)
             if ignored:
